@@ -11,6 +11,9 @@ import random
 from vf import core
 
 THEOREMS = [
+    "signal_word_domain", "signal_no_lost_raise", "signal_wake_after_sleep",
+    "chan_exactly_once_in_sender_order",
+    "bounded_capacity", "bounded_exactly_once_in_order",
     "multichan_no_stranded_refuted",
 ]
 T1_SOURCES = ["src/fiber_manager.c", "src/fiber.c", "src/fiber_mutex.c", "src/fiber_spinlock.c",
